@@ -19,7 +19,7 @@ LEVEL = ("Generated-input exploration over kernels, kernel parameters, centring,
          "including the precomputed-kernel route with center=True and repeated calls on one kernel array, "
          "and score is recomputed from the docstring formula with kernels built by explicit formulas and feature-space centring. "
          "No absence claim: strength = the counted distinct non-trivial cases in the evidence.")
-BUDGET = {"quick": 700, "thorough": 6000}
+BUDGET = {"quick": 700, "thorough": 18000}
 RULE = ("Cases: centred unit-variance X (4..12 x 2..6, thorough to 30 x 10), Y = XB + noise (1..2 targets), mixing in {.1,.5,.9,1}, "
         "k in 1..n, kernels linear / rbf / poly / sigmoid / cosine with gamma in {None,.1,.5,1}, degree {2,3}, coef0 {0,1}; center "
         "False/True; regressors None, KernelRidge(alpha) unfitted / pre-fitted, 'precomputed' (Yhat with and without W); held-out sets "
